@@ -347,9 +347,15 @@ class Table:
             for kw,arg in kwargs.items():
                 compare = next(iter(arg.keys())) if isinstance(arg,dict) else comparison
                 if kw in self._indexes and compare != "match" and not callable(arg):
-                    for lo,hi in self._lohis[kw]:
-                        for l,h in self._compare(lo,hi,self._data[kw],arg,compare,"bisect"):
-                            selection.extend(range(l,h))
+                    try:
+                        found = []
+                        for lo,hi in self._lohis[kw]:
+                            for l,h in self._compare(lo,hi,self._data[kw],arg,compare,"bisect"):
+                                found.extend(range(l,h))
+                    except TypeError:
+                        #arg can't be ordered against the column so answer as we would without an index
+                        found = self._compare(0,len(self),self._data[kw],arg,compare,"foreach")
+                    selection.extend(found)
                 else:
                     selection.extend(self._compare(0,len(self),self._data[kw],arg,compare,"foreach"))
 
